@@ -37,8 +37,8 @@ Definition allow_var (e : expose) (n : string) : bool :=
 
 (* `@forward "lib" [as p-*] [show|hide ...]`: what reaches the forwarding module's users.
    Without prefix: ScopeRef::expose (functions and mixins by allow_fun, variables by allow_var).
-   With a prefix: the UseAs::Prefix arm of do_use, which tests the prefixed FUNCTION names with
-   allow_var and the prefixed VARIABLE names with allow_fun (as in the source). *)
+   With a prefix: the UseAs::Prefix arm of do_use on the prefixed names (after fix 2f8ada8:
+   functions and mixins by allow_fun, variables by allow_var). *)
 Definition forward_view (m : members) (pfx : option string) (e : expose) : members :=
   match pfx with
   | None =>
@@ -46,8 +46,8 @@ Definition forward_view (m : members) (pfx : option string) (e : expose) : membe
             (filter (allow_fun e) (m_funs m))
             (filter (allow_fun e) (m_mixins m))
   | Some p =>
-      mkMem (filter (fun kv => allow_fun e (fst kv)) (map (fun kv => (String.append p (fst kv), snd kv)) (m_vars m)))
-            (filter (allow_var e) (map (String.append p) (m_funs m)))
+      mkMem (filter (fun kv => allow_var e (fst kv)) (map (fun kv => (String.append p (fst kv), snd kv)) (m_vars m)))
+            (filter (allow_fun e) (map (String.append p) (m_funs m)))
             (filter (allow_fun e) (map (String.append p) (m_mixins m)))
   end.
 
